@@ -22,6 +22,7 @@ func (P) Generate(g *core.Gen) {
 	genCiphers(g)
 	genEllswift(g)
 	genSched(g)
+	genIO(g)
 	genPk(g)
 	genEp(g)
 	genConc(g)
@@ -138,6 +139,31 @@ func genEllswift(g *core.Gen) {
 			pre = strings.Repeat("f", 64) + strings.Repeat("f", 64) + "07"
 		}
 		kase(g, "create", true, "C19 create "+pre+" "+hx(r.Bytes(16)))
+	}
+}
+
+func genIO(g *core.Gen) {
+	r := g.R
+	for i := 0; i < g.N(60, 1000); i++ {
+		inp := r.Bytes(int(r.Pick(0, 1, 3, 16, 64, 100, 300)))
+		var ns []string
+		for j := r.Intn(6); j >= 0; j-- {
+			ns = append(ns, fmt.Sprint(r.Pick(0, 1, 3, 16, 17, 64, int64(len(inp)), int64(len(inp)+1), int64(r.Intn(80)))))
+		}
+		var sends []string
+		for j := r.Intn(4); j > 0; j-- {
+			l := int(r.Pick(0, 1, 2, 16, 80, 4159))
+			sends = append(sends, fmt.Sprintf("%d:%d", l, r.Pick(0, 1, int64(l-1), int64(l), int64(l+1), 1<<20)))
+		}
+		for k, sd := range sends {
+			if strings.Contains(sd, ":-") {
+				sends[k] = strings.Split(sd, ":")[0] + ":0"
+			}
+		}
+		kase(g, "rwio", true, fmt.Sprintf("C19 rwio %d %s %s %s", r.Pick(0, 1, 2, 7, 1000), hx(inp), strings.Join(ns, ","), joinOr(sends, ",")))
+	}
+	for i := 0; i < g.N(40, 1500); i++ {
+		kase(g, "xell", true, "C19 xell "+randCurveX(r)+" - "+hx(r.Bytes(16)))
 	}
 }
 
@@ -469,9 +495,19 @@ func genEp(g *core.Gen) {
 		s.wa, s.wb = loopback(s.a, s.b, s.pa, s.pb)
 		return s
 	}
+	// a request above the content limit is refused and must not disturb the stream
+	oversize := func(acts []string) []string {
+		if len(acts) == 0 || !r.Chance(1, 3) {
+			return acts
+		}
+		k := r.Intn(len(acts) + 1)
+		big := fmt.Sprintf("s:%d:%d:%d:0", 1<<24+r.Intn(2), r.Intn(256), r.Intn(2))
+		return append(append(append([]string(nil), acts[:k]...), big), acts[k:]...)
+	}
+	_ = oversize
 	emit := func(cls string, s sess) {
-		kase(g, cls+"-initiator", true, s.a.line(s.wb, append(sendActs(s.pa), recvActs(s.pb, r.Intn(2))...)))
-		kase(g, cls+"-responder", true, s.b.line(s.wa, append(sendActs(s.pb), recvActs(s.pa, r.Intn(2))...)))
+		kase(g, cls+"-initiator", true, s.a.line(s.wb, append(oversize(sendActs(s.pa)), recvActs(s.pb, r.Intn(2))...)))
+		kase(g, cls+"-responder", true, s.b.line(s.wa, append(oversize(sendActs(s.pb)), recvActs(s.pa, r.Intn(2))...)))
 	}
 	// garbage-length grid {0,1,4094,4095} x {0,1,4094,4095}
 	grid := []int{0, 1, 4094, 4095}
@@ -643,8 +679,13 @@ func genConc(g *core.Gen) {
 		var ss []string
 		for j := 0; j < k; j++ {
 			epoch := j<<20 + r.Intn(1000)
-			if j == 0 {
+			switch j {
+			case 0:
 				epoch = r.Intn(3)
+			case 1: // crosses 2^32 during the run (upper half of the LE64 rekey counter)
+				epoch = 1<<32 - 600 + r.Intn(100)
+			case 2:
+				epoch = 1<<40 + r.Intn(1000)
 			}
 			ss = append(ss, fmt.Sprintf("%s:%d:%d:%d", hx(r.Bytes(32)), epoch, g.N(1200, 6000), r.Intn(256)))
 		}
